@@ -31,13 +31,16 @@ CLAIMS = {
         "ref": "DESIGN.md §4 C01",
     },
     "C02": {
-        "technique": "Lean 4 theorems on compareValues/Variant coercions/leafP (numeric, boolean, text atoms; quoted literal is text; boolean literal rejection) + CLI correspondence + independent Python oracle from lstat",
+        "technique": "Lean 4 theorems on compareValues/Variant coercions/leafP (numeric, boolean, text atoms; quoted literal is text; boolean literal rejection), on the condition parser (comparison of arbitrary expression operands, BETWEEN desugaring with infix NOT) and on conforms (BETWEEN inclusive, column vs column) + CLI correspondence + independent Python oracle from lstat",
         "text": ("Theorems for every entry value and every literal meeting the stated well-formedness predicate: an integer-typed column "
                  "against an integral literal is the numeric comparison for all eight operator kinds; a boolean column against the documented "
                  "words is (in)equality of booleans and an unparsable word is a status-2 error (D03 fixed); text =/!= without wildcard and "
                  "===/!== are (in)equality of text; a quoted literal parses to text whatever it spells (D02 fixed). Date atoms: C13; pattern "
-                 "atoms: C12; unit literals: C14. BETWEEN inclusiveness, column-vs-column and the binding of columns to lstat attributes are "
-                 "decided by the correspondence and by an independent Python evaluation of the documented meaning for every entry."),
+                 "atoms: C12; unit literals: C14. comparison_of_expressions: `e1 [not] op e2` with operands from the whole arithmetic grammar "
+                 "parses to one comparison node (infix NOT negates the operator); between_is_atom/between_inclusive: `x [not] between lo and "
+                 "hi` parses to x >= lo AND x <= hi (resp. the De Morgan complement) and is true exactly when lo ≤ x ≤ hi; column_vs_column: "
+                 "both operands are evaluated on the same entry. The binding of columns to lstat attributes and float/unit/date literals end "
+                 "to end are decided by the correspondence and by an independent Python evaluation of the documented meaning for every entry."),
         "ref": "DESIGN.md §4 C02",
     },
     "C03": {
